@@ -9,6 +9,15 @@ RELATED = {
     "C10": ["C10", "C09", "C04", "C01"], "C11": ["C11", "C05", "C02", "C01"], "C12": ["C12"], "C13": ["C13", "C16"], "C14": ["C14", "C02"],
     "C15": ["C15", "C13", "C05"], "C16": ["C16", "C13"], "C17": ["C17"],
 }
+SNAP = None
+def snapshot():
+    """the checks are run from a private copy of /verif, so that /verif can be edited while the matrix is being computed"""
+    global SNAP
+    if SNAP is None:
+        SNAP = tempfile.mkdtemp(prefix="mxv.", dir="/tmp")
+        subprocess.run(["rsync", "-a", "--exclude", ".git", "--exclude", "replays", "--exclude", "evidence", "--exclude", "__pycache__",
+                        ROOT + "/", SNAP + "/"], check=True)
+    return SNAP
 def run(seed, check):
     d = tempfile.mkdtemp(prefix="mx.", dir="/tmp")
     try:
@@ -18,7 +27,7 @@ def run(seed, check):
         if p.returncode != 0:
             return "patch-failed"
         env = dict(os.environ, VERIF_REPO=d + "/repo")
-        p = subprocess.run([ROOT + "/check", check, "--tier", "quick", "--no-evidence"], env=env, capture_output=True, text=True)
+        p = subprocess.run([snapshot() + "/check", check, "--tier", "quick", "--no-evidence"], env=env, capture_output=True, text=True)
         viol = len(re.findall(r"^VIOLATION", p.stdout, re.M))
         return "detected" if p.returncode == 1 and viol else ("harness-error" if p.returncode not in (0, 1) else "missed")
     finally:
@@ -41,4 +50,8 @@ def main():
         json.dump(meta, open("%s/seeded/%s/meta.json" % (ROOT, s), "w"), indent=1)
         json.dump(mat, open(path, "w"), indent=1, sort_keys=True)
 if __name__ == "__main__":
-    main()
+    try:
+        main()
+    finally:
+        if SNAP:
+            shutil.rmtree(SNAP, ignore_errors=True)
